@@ -43,6 +43,12 @@ type Case struct {
 	// Late: the cut isolates the second prompt of a two-prompt answer: modelled by lateDevice;
 	// timing dependent on the real side (either the late or the fast outcome is accepted)
 	Late bool `json:"late,omitempty"`
+	// Fixed: a banner rides on a fixed line sent while the reload is scheduled:
+	// "configure terminal" (the second one), "end" (the deferred one), "reload cancel"
+	Fixed map[string]Behav `json:"fixed,omitempty"`
+	// SpecialIsBanner: the scripted answers in Special only add a reload banner to the reload dialogue
+	// (confirmation / `do reload in 2` lines): the banner oracle applies. Class: "one-prompt", "two-prompt"
+	SpecialIsBanner string `json:"special_is_banner,omitempty"`
 }
 
 func bannerText(msg string) string { return "\n\n\n" + bell + "***\n***" + msg + "\n***\n" }
@@ -70,6 +76,12 @@ func replyFor(cmd string, b Behav) string {
 		return body + bannerText(b.Msg) + "\n" + prompt
 	}
 	return cmd + "\n" + b.Out + prompt
+}
+
+var fixedOut = map[string]string{
+	"configure terminal": "Enter configuration commands, one per line.  End with CNTL/Z.\n",
+	"reload cancel":      "\n\n***\n*** --- SHUTDOWN ABORTED ---\n***\n",
+	"end":                "",
 }
 
 const noAskReload = "reload in 2\nProceed with reload? [confirm]<!>" + prompt
@@ -112,6 +124,18 @@ func runDialog(dir string, c *Case) Outcome {
 	}
 	for l, b := range c.Behav {
 		replies[l] = []string{replyFor(l, b)}
+	}
+	for l, b := range c.Fixed {
+		out := fixedOut[l]
+		bb := b
+		bb.Out = out
+		switch l {
+		case "configure terminal", "end":
+			// the first occurrence belongs to prepareDevice (no reload scheduled yet)
+			replies[l] = []string{replyFor(l, Behav{Out: out}), replyFor(l, bb)}
+		case "reload cancel":
+			replies[l] = []string{replyFor(l, bb)}
+		}
 	}
 	for l, r := range c.Special {
 		replies[l] = r
